@@ -17,6 +17,7 @@ import (
 	"strings"
 
 	"verifharness/extract/ex"
+	"verifharness/extract/pkgvars"
 )
 
 func render(fset *token.FileSet, n ast.Node) string {
@@ -111,6 +112,20 @@ func runSchnorr(repo string) (string, error) {
 			s += fmt.Sprintf("/-- argument lists of the calls of `hash` -/\ndef %sHashArgs : List String := %s\n", low, leanList(hashCalls(fset, fd)))
 		}
 		s += "\n"
+	}
+	// the COMPLETE lists of package-level variables of sign/schnorr and group/edwards25519 (all non-test files, hook
+	// files included): a cache / memo / pool added to either package is process-wide state that outlives a call
+	for _, pk := range []struct{ dir, def string }{{"sign/schnorr", "schnorrPkgVars"}, {"group/edwards25519", "edwardsPkgVars"}} {
+		vars, err := pkgvars.Collect(repo, pk.dir)
+		if err != nil {
+			return "", fmt.Errorf("package %s: %v", pk.dir, err)
+		}
+		var q []string
+		for _, v := range vars {
+			q = append(q, fmt.Sprintf("(%s, %s, %s, %v)", ex.LeanStr(v.File), ex.LeanStr(v.Name), ex.LeanStr(v.Type), v.Value != ""))
+		}
+		s += fmt.Sprintf("/-- package-level `var`s of %s: (file, name, type expression or \"\", has an initialiser) -/\n", pk.dir)
+		s += fmt.Sprintf("def %s : List (String × String × String × Bool) :=\n  [%s]\n\n", pk.def, strings.Join(q, ",\n   "))
 	}
 	s += "end Dos.Gen.SchnorrFacts\n"
 	return s, nil
